@@ -2,6 +2,7 @@
 From Coq Require Import ZArith NArith List Bool String.
 Import ListNotations.
 Require Import EmbossV.Bounds.Model EmbossV.Layout.Model EmbossV.Layout.Proofs EmbossV.Layout.ProofsMain EmbossV.Layout.Exec.
+Require Import EmbossV.Layout.ModelExt EmbossV.Layout.ExecExt EmbossV.Layout.ProofsExt.
 Open Scope Z_scope.
 
 (* For ALL modules of the modelled IR subset and ALL attribute / reserved-word tables:
@@ -52,3 +53,86 @@ Proof. exact example_realisable_lem. Qed.
 
 Example example_not_realisable : units_ok ex_M_bad /\ check_layout ex_T ex_M_bad = false /\ ~ realisable ex_T ex_M_bad.
 Proof. exact example_not_realisable_lem. Qed.
+
+(* ====================== extended rule set (ModelExt.v) ====================== *)
+
+(* For ALL modules, tables and extension data: the mirror of the front end (check_early_constraints,
+   normalize_and_verify, check_constraints incl. [requires] placement, early parameter rules, the
+   64-bit gate, imported modules) and of the C++ back end's attribute verification accepts exactly
+   the modules that satisfy the documented rules. *)
+Theorem check_layout_x_iff_realisable_x : forall T C X M,
+  t_req T = prelude_req -> units_ok M -> (check_layout_x T C X M = true <-> realisable_x T C X M).
+Proof. exact check_layout_x_iff. Qed.
+
+Theorem check_front_x_iff_realisable_front_x : forall T X M,
+  t_req T = prelude_req -> units_ok M -> (check_front_x T X M = true <-> realisable_front_x T X M).
+Proof. exact check_front_x_iff. Qed.
+
+(* (cpp) namespace: optional leading "::", then a non-empty "::"-separated list of C++ identifiers,
+   whitespace allowed around each, none of them a reserved word — for every reserved-word list *)
+Theorem namespace_rule : forall reserved_cpp s, namespace_okb reserved_cpp s = true <-> namespace_ok reserved_cpp s.
+Proof. exact namespace_okb_iff. Qed.
+
+(* the scanner returns the components the grammar determines *)
+Theorem namespace_components : forall l ids, parse_ns l = Some ids <-> ns_shape l ids.
+Proof. exact parse_ns_iff. Qed.
+
+Theorem namespace_components_unique : forall l ids ids', ns_shape l ids -> ns_shape l ids' -> ids = ids'.
+Proof. exact ns_shape_functional. Qed.
+
+(* (cpp) enum_case: comma-separated, whitespace-padded, optional trailing comma; names non-empty,
+   pairwise distinct and supported — for every list of supported cases *)
+Theorem enum_case_rule : forall supported s, enum_case_okb supported s = true <-> enum_case_ok supported s.
+Proof. exact enum_case_okb_iff. Qed.
+
+Theorem enum_case_pieces_rule : forall l cs, case_shape l cs -> case_pieces l = cs.
+Proof. exact case_pieces_complete. Qed.
+
+(* (cpp) attribute table + value validators on every attribute-bearing node *)
+Theorem cpp_attribute_rule : forall C nodes, check_cpp C nodes = true <-> real_cpp C nodes.
+Proof. exact check_cpp_iff. Qed.
+
+(* every run-time integer (sub)expression fits one 64-bit type; no operation mixes uint64-only and int64-only *)
+Theorem gate64_rule : forall t, gate64 t = true <-> gate_ok t.
+Proof. exact gate64_iff. Qed.
+
+Theorem requires_site_rule : forall r, check_req_site r = true <-> real_req_site r.
+Proof. exact check_req_site_iff. Qed.
+
+Theorem parameter_early_rule : forall p, check_param_early p = true <-> real_param_early p.
+Proof. exact check_param_early_iff. Qed.
+
+(* non-vacuity *)
+Example example_realisable_x :
+  units_ok ex_M /\ check_layout_x ex_T ex_C ex_X ex_M = true /\ realisable_x ex_T ex_C ex_X ex_M.
+Proof. exact example_realisable_x_lem. Qed.
+
+Example example_not_realisable_x :
+  Forall (fun X => check_layout_x ex_T ex_C X ex_M = false /\ ~ realisable_x ex_T ex_C X ex_M)
+         [ex_X_bad_ns; ex_X_bad_case; ex_X_bad_scope; ex_X_bad_req; ex_X_bad_gate; ex_X_bad_param].
+Proof. exact example_not_realisable_x_lem. Qed.
+
+Example namespace_examples :
+  namespace_ok ["class"%string] " ::foo :: bar::baz "%string /\ ~ namespace_ok ["class"%string] "foo::class"%string
+  /\ ~ namespace_ok [] "::"%string /\ ~ namespace_ok [] ""%string /\ ~ namespace_ok [] "foo::"%string
+  /\ ~ namespace_ok [] "foo:::bar"%string /\ ~ namespace_ok [] "9foo"%string.
+Proof. exact namespace_examples_lem. Qed.
+
+Example enum_case_examples :
+  let sup := ["SHOUTY_CASE"; "kCamelCase"]%string in
+  enum_case_ok sup "SHOUTY_CASE, kCamelCase"%string /\ enum_case_ok sup "kCamelCase ,"%string
+  /\ ~ enum_case_ok sup ""%string /\ ~ enum_case_ok sup "kCamelCase,,SHOUTY_CASE"%string
+  /\ ~ enum_case_ok sup "kCamelCase, kCamelCase"%string /\ ~ enum_case_ok sup "snake_case"%string.
+Proof. exact enum_case_examples_lem. Qed.
+
+(* Reserved words as names of runtime parameters (enforced since /repo commit 8d5ef9f): an accepted
+   module has none. *)
+Theorem parameter_names_checked : forall T C X M,
+  check_layout_x T C X M = true -> forall n, In n (x_param_names X) -> ~ In n (t_reserved T).
+Proof. exact parameter_names_checked_lem. Qed.
+
+(* the front-end mirror as it was before that commit accepted a parameter called "class" *)
+Theorem old_parameter_names_unchecked_refuted :
+  check_front_x_old ex_T ex_X_bad_param ex_M = true /\ check_front_x ex_T ex_X_bad_param ex_M = false
+  /\ exists n, In n (x_param_names ex_X_bad_param) /\ In n (t_reserved ex_T).
+Proof. exact old_parameter_names_unchecked_lem. Qed.
